@@ -1,10 +1,10 @@
 SPECIFICATION Spec
 CONSTANTS
   G = {1, 2}
-  Ops = 3
+  Ops = 1
   PutEarly = FALSE
   ResetOnError = TRUE
-  LazyInit = "once"
+  LazyInit = "racy"
   MayFail = TRUE
 INVARIANTS Independent Exclusive HeldNotPooled PoolClean NoBlindRead
 CHECK_DEADLOCK FALSE
